@@ -49,6 +49,9 @@ impl<const N: usize> Memo<N> {
     #[inline(always)]
     pub fn get3(&mut self, a: u64, b: u64, c: u64, fresh: (u64, u64)) -> (u64, u64) {
         let i = self.calls;
+        #[cfg(kani)]
+        kani::assert(i < N, "uf memo table overflow");
+        #[cfg(not(kani))]
         assert!(i < N, "uf memo table overflow");
         let mut v = fresh;
         if unsafe { ACK_ASSUME } {
@@ -80,6 +83,59 @@ impl<const N: usize> Memo<N> {
     }
 }
 pub static mut ACK_ASSUME: bool = false;
+
+/// Same table, but the VALUE is stored as the float itself (no float -> bits -> float round trip: under
+/// the SMT back end every such conversion is a fresh bit-vector tied to the float by an equation, which
+/// hides the fact that code and spec received the very same result; measured: lemmas that divide by
+/// an uninterpreted sqrt time out with the bits form and take seconds with this one).
+pub trait FBits: Copy { fn fb(self) -> u64; }
+impl FBits for f32 { #[inline(always)] fn fb(self) -> u64 { self.to_bits() as u64 } }
+impl FBits for f64 { #[inline(always)] fn fb(self) -> u64 { self.to_bits() } }
+pub struct MemoF<T: FBits, const N: usize> {
+    pub calls: usize,
+    pub k0: [u64; N],
+    pub k1: [u64; N],
+    pub k2: [u64; N],
+    pub v: [T; N],
+}
+impl<T: FBits, const N: usize> MemoF<T, N> {
+    pub const fn new(z: T) -> Self {
+        MemoF { calls: 0, k0: [0; N], k1: [0; N], k2: [0; N], v: [z; N] }
+    }
+    #[inline(always)]
+    pub fn get3(&mut self, a: u64, b: u64, c: u64, fresh: T) -> T {
+        let i = self.calls;
+        #[cfg(kani)]
+        kani::assert(i < N, "uf memo table overflow");
+        #[cfg(not(kani))]
+        assert!(i < N, "uf memo table overflow");
+        let mut v = fresh;
+        if unsafe { ACK_ASSUME } {
+            let mut j = 0;
+            while j < N && j < i {
+                let hit = self.k0[j] == a && self.k1[j] == b && self.k2[j] == c;
+                #[cfg(kani)]
+                kani::assume(!hit || self.v[j].fb() == v.fb());
+                let _ = hit;
+                j += 1;
+            }
+        } else {
+            let mut j = N;
+            while j > 0 {
+                j -= 1;
+                if j < i && self.k0[j] == a && self.k1[j] == b && self.k2[j] == c {
+                    v = self.v[j];
+                }
+            }
+        }
+        self.k0[i] = a;
+        self.k1[i] = b;
+        self.k2[i] = c;
+        self.v[i] = v;
+        self.calls = i + 1;
+        v
+    }
+}
 
 /// key of a float argument: its bit pattern, with every NaN mapped to one canonical key (results are
 /// compared as IEEE values, NaN ~ NaN; the SMT back end leaves the bits of a NaN unspecified)
@@ -145,15 +201,14 @@ fn fresh64(mode: u8) -> f64 {
 macro_rules! uf1 {
     ($name:ident, $t:ty, $fresh:ident, $tab:ident, $mode:ident, $real:expr) => { uf1!($name, $t, $fresh, $tab, $mode, $real, 16); };
     ($name:ident, $t:ty, $fresh:ident, $tab:ident, $mode:ident, $real:expr, $n:literal) => {
-        pub static mut $tab: Memo<$n> = Memo::new();
+        pub static mut $tab: MemoF<$t, $n> = MemoF::new(0.0);
         pub static mut $mode: u8 = ANY;
         pub fn $name(x: $t) -> $t {
             #[cfg(kani)]
             unsafe {
                 let k = Key::key(x);
                 let r = $fresh($mode);
-                let v = $tab.get(k, 0, (r.to_bits() as u64, 0));
-                <$t>::from_bits(v.0 as _)
+                $tab.get3(k, 0, 0, r)
             }
             #[cfg(not(kani))]
             {
@@ -343,15 +398,15 @@ pub fn rem_f64(a: f64, b: f64) -> f64 {
 // ---- uninterpreted primitive arithmetic (forwarding lemmas: "for ANY function in place of + - * / %") ----
 // add and mul are keyed on the UNORDERED pair of operands (IEEE addition and multiplication are
 // commutative as values; NaN operands share one key)
-uf2c!(uadd_f32, f32, fresh32, UADD32_TAB, UADD32_MODE, |x, y| x + y, 40);
-uf2!(usub_f32, f32, fresh32, USUB32_TAB, USUB32_MODE, |x, y| x - y, 40);
-uf2c!(umul_f32, f32, fresh32, UMUL32_TAB, UMUL32_MODE, |x, y| x * y, 40);
-uf2!(udiv_f32, f32, fresh32, UDIV32_TAB, UDIV32_MODE, |x, y| x / y, 40);
+uf2c!(uadd_f32, f32, fresh32, UADD32_TAB, UADD32_MODE, |x, y| x + y, 80);
+uf2!(usub_f32, f32, fresh32, USUB32_TAB, USUB32_MODE, |x, y| x - y, 80);
+uf2c!(umul_f32, f32, fresh32, UMUL32_TAB, UMUL32_MODE, |x, y| x * y, 80);
+uf2!(udiv_f32, f32, fresh32, UDIV32_TAB, UDIV32_MODE, |x, y| x / y, 80);
 uf2!(urem_f32, f32, fresh32, UREM32_TAB, UREM32_MODE, |x, y| x % y, 40);
-uf2c!(uadd_f64, f64, fresh64, UADD64_TAB, UADD64_MODE, |x, y| x + y, 40);
-uf2!(usub_f64, f64, fresh64, USUB64_TAB, USUB64_MODE, |x, y| x - y, 40);
-uf2c!(umul_f64, f64, fresh64, UMUL64_TAB, UMUL64_MODE, |x, y| x * y, 40);
-uf2!(udiv_f64, f64, fresh64, UDIV64_TAB, UDIV64_MODE, |x, y| x / y, 40);
+uf2c!(uadd_f64, f64, fresh64, UADD64_TAB, UADD64_MODE, |x, y| x + y, 80);
+uf2!(usub_f64, f64, fresh64, USUB64_TAB, USUB64_MODE, |x, y| x - y, 80);
+uf2c!(umul_f64, f64, fresh64, UMUL64_TAB, UMUL64_MODE, |x, y| x * y, 80);
+uf2!(udiv_f64, f64, fresh64, UDIV64_TAB, UDIV64_MODE, |x, y| x / y, 80);
 uf2!(urem_f64, f64, fresh64, UREM64_TAB, UREM64_MODE, |x, y| x % y, 40);
 macro_rules! assign_form {
     ($($name:ident = $base:ident : $t:ty),*) => {$(
